@@ -29,6 +29,9 @@ func (s *Sim) lockLoop(t *Task, site int, m any, try func() bool, write bool) {
 			s.mu.Unlock()
 			return
 		}
+		if t.goid == s.rootG {
+			panic("simrt: the scheduler goroutine would block on a lock held by a parked task")
+		}
 		s.mu.Lock()
 		if s.dying {
 			s.mu.Unlock()
